@@ -559,7 +559,7 @@ func init() {
 		Shards: shards(8, 16),
 		Meta: func(tier string) rt.Meta {
 			return rt.Meta{Level: "exploration", MinEvals: 2000, MinDistinct: 10,
-				Rule:        "sequential: random histories of 200 calls over 4 names (incl. root) and all 8 operations, every return value checked against a two-map reference model (a fresh id = any id never handed out), plus after every call a sweep of all by-name/by-id lookups and the internal-map invariant hook. Concurrent: 2-4 goroutines x 2-4 calls under the deterministic lock-hook scheduler (all schedules with <= 2 preemptions up to a cap, then random schedules), recorded (call, return) events judged by porcupine against the same model. Plus sequential histories of 6000 calls biased to add/delete (about 1000 successful deletions on one instance). A Windows-typed identity manager (other administrator names, user and group names differing) runs the same sequential histories in a worker of the avfs_setostype build. Signature = mode | operation | outcome class (sequential) or workers/context switches (concurrent); non-trivial = not the first call / at least one context switch.",
+				Rule:        "sequential: random histories of 200 calls over 4 names (incl. root) and all 8 operations, every return value checked against a two-map reference model (a fresh id = any id never handed out), plus after every call a sweep of all by-name/by-id lookups and the internal-map invariant hook. Concurrent: 2-4 goroutines x 2-4 calls under the deterministic lock-hook scheduler (all schedules with <= 2 preemptions up to a cap, then random schedules), recorded (call, return) events judged by porcupine against the same model. Plus sequential histories of 6000 calls biased to add/delete (about 1000 successful deletions on one instance). A Windows-typed identity manager (other administrator names, user and group names differing) runs the same sequential histories in a worker of the avfs_setostype build. AdminUser()/AdminGroup() are asserted after every call (id 0, the administrator names, never nil). Signature = mode | operation | outcome class (sequential) or workers/context switches (concurrent); non-trivial = not the first call / at least one context switch.",
 				Assumptions: []string{"when both the group is unknown and the user exists, either documented error is accepted"}}
 		},
 		CrashIsViolation: true,
